@@ -55,12 +55,6 @@ theorem keeps_presets (P : Problem) (s0 r : State) (h : optimize P s0 = .ok r) :
     obtain ⟨_, _, hst, _⟩ := stepOnce_some hstep
     exact Le.trans hs (stepped_some_le hst)
 
-/-- the hypothesis of `never_worse`: along every increment the optimizer may try (within the limits,
-    affordable) the value does not decrease -/
-def StepMonotone (P : Problem) : Prop :=
-  ∀ (s s' : State) (inc : List Nat), inc ∈ P.increments →
-    getSteppedTarget P.maxStep s inc = .ok (some s') → P.cost s' ≤ P.budget → P.value s ≤ P.value s'
-
 /-- **never worse**: for a target whose value does not decrease along the steps tried, the result
     is worth at least the preset.  (Value-monotonicity IS needed, see `worse_without_monotonicity`.) -/
 theorem never_worse (P : Problem) (hmono : StepMonotone P) (s0 r : State)
@@ -288,12 +282,6 @@ theorem legal_meaning {α : Type} (W : WeaponProblem α) (emblem : Bool) (c : Li
       (emblem = true → c.countP W.isBoss = 0) := by
   simp only [Legal, legal_iff]
 
-/-- pruning loses nothing: every legal triple is matched by a legal triple of useful lines -/
-def Dominated {α : Type} (W : WeaponProblem α) : Prop :=
-  ∀ w s e, Legal W false w → Legal W false s → Legal W true e →
-    ∃ w' s' e', LegalPruned W false w' ∧ LegalPruned W false s' ∧ LegalPruned W true e' ∧
-      W.reward w s e ≤ W.reward w' s' e'
-
 /-- **weapon best** over the unpruned lists, given that pruning loses nothing -/
 theorem weapon_best_of_dominated {α : Type} (W : WeaponProblem α) (hdom : Dominated W) :
     (∀ w s e, W.getFullOptimalPotential = some (w, s, e) →
@@ -335,7 +323,7 @@ theorem dominated_of_local_replacement {α : Type} (W : WeaponProblem α)
 /-- a two-slot target, budget 3: the greedy takes slot 1 (gain 3/cost 1), then slot 0 twice … -/
 def demo : Problem :=
   { n := 2, maxStep := 2, stepSize := 1, maxIter := 999, budget := 3,
-    cost := fun s => (s.foldl (· + ·) 0 : Nat),
+    cost := fun s => (s.sum : Nat),
     value := fun s => 10 + 2 * (s.getD 0 0 : Nat) + 3 * (min (s.getD 1 0) 1 : Nat) }
 
 example : optimize demo [0, 0] = .ok [2, 1] := by decide +kernel
@@ -343,6 +331,29 @@ example : optimize demo [0, 2] = .ok [1, 2] := by decide +kernel          -- pre
 example : optimize { demo with maxIter := 1 } [0, 0] = .error .maximumOptimizationStepExceed := by
   decide +kernel
 example : optimize { demo with value := fun _ => 0 } [0, 0] = .error .zeroDivision := by decide +kernel
+
+/-- the hypothesis of `never_worse` holds for the demo target (more levels never lower its value) -/
+example : StepMonotone demo := by
+  intro s s' inc _ hst _
+  have h := stepped_some_le hst
+  have h0 := h.2 0
+  have h1 := h.2 1
+  have a : ((s.getD 0 0 : Nat) : Rat) ≤ ((s'.getD 0 0 : Nat) : Rat) := by exact_mod_cast h0
+  have b : ((min (s.getD 1 0) 1 : Nat) : Rat) ≤ ((min (s'.getD 1 0) 1 : Nat) : Rat) := by
+    exact_mod_cast (by omega : min (s.getD 1 0) 1 ≤ min (s'.getD 1 0) 1)
+  simp only [demo]
+  linarith
+
+/-- the hypotheses of `stops_only_when_exhausted` hold for the demo target -/
+example : (∀ s, 0 < demo.value s) ∧ (∀ s i, i < s.length → demo.cost s + 1 ≤ demo.cost (incr s i)) := by
+  constructor
+  · intro s
+    simp only [demo]
+    positivity
+  · intro s i hi
+    simp only [demo, sum_incr s i hi]
+    push_cast
+    exact le_refl _
 
 /-- a weapon problem with three lines per potential: options 0 = attack%, 1 = magic% (useless),
     2 = ignore-defence, 3 = boss; three boss lines are illegal, boss is illegal on the emblem -/
